@@ -45,7 +45,11 @@ Cl_OnTheLine    == (E.ev = "Query" /\ O.online /\ ~E.p.raise /\ (Len(Exps) >= 2 
                      IN EqE(E.p.v, FMul(e.P, M!ArrheniusFactor(TrueEa, E.T, e.T)), E.p.v)
 \* relations are asserted on finite operands only (an off-line regression over nearly equal temperatures
 \* can extrapolate to an infinite permeance)
+\* (a regression over experiments a few kelvin apart extrapolates to permeances like 1e-303 and 1e46, whose quotient underflows:
+\*  the relation is asserted where the numbers are representable with full precision)
+Moderate(v) == FLt(Lit("1e-150"), v) /\ FLt(v, Lit("1e150"))
 Cl_Selectivity  == (E.ev = "Sel" /\ ~E.selMolar.raise /\ ~E.selWeight.raise /\ FIsFinite(E.p1.v) /\ FIsFinite(E.p2.v)
+                                 /\ Moderate(E.p1.v) /\ Moderate(E.p2.v)
                                  /\ FLt(Lit("0.0"), E.p2.v) /\ FIsFinite(E.selWeight.v) /\ FIsFinite(E.selMolar.v)) =>
                      /\ M!SelectivityLaw(E.selMolar.v, E.selWeight.v, O.M1, O.M2, FMul(E.selMolar.v, O.M1))
                      /\ M!SelectivityDef(E.selWeight.v, E.p1.v, E.p2.v, E.p1.v)
